@@ -21,7 +21,8 @@ fn main() {
         let v: serde_json::Value =
             serde_json::from_str(&std::fs::read_to_string(&args[3]).expect("replay file")).expect("json");
         match id {
-            "C01" => mc::checks::c01::replay(&v["case"]),
+            "C01" | "C02" | "C04" | "C05" | "C08" => mc::checks::wscheck::replay(&v["case"]),
+            "C06" => mc::checks::c06::replay(&v["case"]),
             _ => {
                 eprintln!("no replay for {}", id);
                 std::process::exit(2)
@@ -29,9 +30,13 @@ fn main() {
         }
         return;
     }
-    let rep = mc::report::Report::new(id);
+    let rep: &'static mc::report::Report = Box::leak(Box::new(mc::report::Report::new(id)));
     match id {
-        "C01" => mc::checks::c01::run(&rep),
+        "C01" => mc::checks::c01::run(rep),
+        "C02" => mc::checks::c02::run(rep),
+        "C04" => mc::checks::c04::run(rep),
+        "C05" => mc::checks::c05::run(rep),
+        "C06" => mc::checks::c06::run(rep),
         _ => {
             eprintln!("unknown check {}", id);
             std::process::exit(2)
